@@ -74,8 +74,30 @@ Definition vtypes : list vtype :=
     mkVT "Unknown880a" U880a_IsValid U880a_getters U880a_specs [] []
       ["IsValid/0"] ].
 
+(* LLDP.Type(t): names of the TLV types 0..8, otherwise strconv.Itoa(t) (layer_ethernet.go) *)
+Definition LLDP_Type_name (t : N) : string :=
+  if N.eqb t 0 then "endpdu" else if N.eqb t 1 then "chassisID" else if N.eqb t 2 then "port" else if N.eqb t 3 then "ttl"
+  else if N.eqb t 4 then "portdesc" else if N.eqb t 5 then "name" else if N.eqb t 6 then "description"
+  else if N.eqb t 7 then "capabilities" else if N.eqb t 8 then "mngntaddr" else dec_of_N t.
+Definition LLDP_Type_arg (t : N) : getter := fun _ => Ok (VS (LLDP_Type_name t)).
+(* LLDP.Capability(v): len(v) < 2 -> ""; names for the bits 0x80 .. 0x01 of v[1] in that order, comma separated *)
+Definition cap_names_code : list (N * string) :=
+  [(128%N, "other"); (64%N, "repeater"); (32%N, "bridge"); (16%N, "AP"); (8%N, "router"); (4%N, "phone"); (2%N, "docsis"); (1%N, "station")].
+Definition LLDP_Capability_s (v : bytes) : string :=
+  match v with
+  | _ :: b :: _ => join "," (map snd (filter (fun mn => N.eqb (N.land b (fst mn)) (fst mn)) cap_names_code))
+  | _ => ""
+  end.
+
 (* accessors with one integer argument *)
-Definition arg_getters : list (string * (N -> getter)) := [("LLDP.GetPDU", LLDP_GetPDU)].
+Definition arg_getters : list (string * (N -> getter)) := [("LLDP.GetPDU", LLDP_GetPDU); ("LLDP.Type", LLDP_Type_arg)].
+
+(* source census (kind "caps", go/ast in the harness): for every getter / decoder whose result can alias the view,
+   the number of two-index / three-index slice expressions in its body.  Every one is n/0: NO getter clips the
+   capacity of what it returns (p[a:b] without a third index), so for each of them append() on the returned slice
+   by a caller would write into the bytes of the frame that follow.  The model's VR off n carries only the length. *)
+Definition slice_census : string :=
+  "ARP.DstMAC:1/0,ARP.SrcMAC:1/0,DHCP4.CHAddr:1/0,DHCP4.Cookie:1/0,DHCP4.File:1/0,DHCP4.Options:1/0,DHCP4.ParseOptions:3/0,DHCP4.SName:1/0,DHCP4.XId:1/0,Ether.Dst:1/0,Ether.Payload:2/0,Ether.Src:1/0,EthernetPause.Reserved:1/0,HopByHopExtensionHeader.Data:1/0,ICMP.Payload:1/0,ICMP.RestOfHeader:1/0,ICMP4Redirect.Addrs:2/0,ICMP6NeighborAdvertisement.TargetLLA:1/0,ICMP6NeighborSolicitation.SourceLLA:1/0,ICMP6Redirect.DstAddress:1/0,ICMP6Redirect.TargetAddress:1/0,ICMP6Redirect.TargetLinkLayerAddr:1/0,ICMP6RouterSolicitation.SourceLLA:1/0,ICMPEcho.EchoData:1/0,IEEE1905.TLV:1/0,IP4.Payload:1/0,IP6.Payload:1/0,LLC.Payload:2/0,LLDP.ChassisID:0/0,LLDP.GetPDU:0/0,LLDP.PortID:0/0,LLDP.getTLV:1/0,RRCP.SixBytes:1/0,RRCP.Zeros:1/0,SNAP.OrganisationID:1/0,SNAP.Payload:1/0,TCP.Payload:1/0,UDP.Payload:1/0,trimNull:1/0".
 
 (* the exported layout constants of package packet on which the literal offsets of the model rest (kind "consts") *)
 Definition model_consts : string :=
@@ -135,7 +157,7 @@ Definition line02 (t : vtype) (name : string) (v : slice) : string :=
       else out3 m "-" "-"
   end.
 
-Definition dispatch (line : vtype -> string -> slice -> string) (l : string) : string :=
+Definition dispatch (c02 : bool) (line : vtype -> string -> slice -> string) (l : string) : string :=
   match words l with
   | ["g"; ty; name; sp; hx] =>
       match find_vt ty vtypes, bytes_of_tok sp, bytes_of_tok hx with
@@ -158,6 +180,15 @@ Definition dispatch (line : vtype -> string -> slice -> string) (l : string) : s
       | _, _, _, _, _ => BADARGS
       end
   | "consts" :: _ => out3 model_consts "-" "-"
+  | "caps" :: _ => out3 slice_census "-" "-"
+  | ["gb"; "LLDP"; "Capability"; hx] =>
+      match bytes_of_tok hx with
+      | Some b => if c02 then
+                    out3 ("s:" ++ LLDP_Capability_s b) ("s:" ++ lldp_capability_spec b)
+                         (if String.eqb (LLDP_Capability_s b) (lldp_capability_spec b) then "-" else "view-lldp-capability-bit-order")
+                  else out3 ("s:" ++ LLDP_Capability_s b) "-" "-"
+      | None => BADARGS
+      end
   | "types" :: _ => out3 (join "," (map vt_name vtypes)) "-" "-"
   | _ => BADARGS
   end.
